@@ -26,8 +26,8 @@ def pushguard_sites(facts):
 def P1(ctx, facts):
     """Single entrance to the idle list: the Vec<Idle<_>> grows only in IdleConnections::push,
     which is called only from PoolInner::push."""
-    idle_push = facts.fn("client::pool::idle::IdleConnections::push")
-    pool_push = facts.fn("client::pool::PoolInner::push")
+    idle_push = facts.unit(facts.fn("client::pool::idle::IdleConnections::push"))
+    pool_push = facts.unit(facts.fn("client::pool::PoolInner::push"))
     ctx.touched(idle_push)
     n_sites = 0
     n_grow = 0
@@ -88,7 +88,7 @@ def P1(ctx, facts):
                   "IdleConnections::push is called from a PoolInner method (%s)" % c.fn.nkey.split("::")[-1],
                   "IdleConnections::push called from outside PoolInner: %s" % c.fn.nkey, c.where())
     # Idle::new stamps Instant::now and is the only constructor of Idle
-    idle_new = facts.fn("client::pool::idle::Idle::new")
+    idle_new = facts.unit(facts.fn("client::pool::idle::Idle::new"))
     aggs = []
     for f in facts.fns.values():
         for (b, i, s) in f.aggregates("client::pool::idle::Idle"):
@@ -183,15 +183,32 @@ def P6(ctx, facts):
 
 # ------------------------------------------------------------------ P2
 
+def _is_inner_method(nkey):
+    return nkey.startswith("client::pool::PoolInner::") and "{closure" not in nkey
+
+
+def pool_units(facts):
+    """The PoolInner operations as the rest of the crate sees them: every PoolInner method that has a caller outside
+    PoolInner (or none at all), with the PoolInner-private helpers it calls spliced in.  Splitting `push` into
+    `offer_to_waiters` + `store_idle`, or merging helpers back, leaves the units - and every rule evaluated on them - unchanged."""
+    if getattr(facts, "_pool_units", None) is not None:
+        return facts._pool_units
+    units = []
+    for g in facts.fns.values():
+        if not _is_inner_method(g.nkey):
+            continue
+        callers = facts.call_sites_of(g.nkey)
+        outside = [c for c in callers if not _is_inner_method(c.fn.nkey)]
+        if callers and not outside:
+            continue
+        units.append(facts.inl(g, 3, want=lambda ck, raw: _is_inner_method(norm(ck))))
+    facts._pool_units = units
+    return units
+
+
 def entrance_fns(facts):
-    """PoolInner methods that contain an idle-list entrance (today: PoolInner::push). A helper split such as
-    push = deliver + insert keeps working: the rules follow the entrance, not the name."""
-    out = []
-    for c in pushguard_sites(facts):
-        f = c.fn
-        if f.nkey.startswith("client::pool::PoolInner::") and "{closure" not in f.nkey and f not in out:
-            out.append(f)
-    return out
+    """PoolInner operations (see pool_units) through which a connection can reach the idle list (today: PoolInner::push)."""
+    return [u for u in pool_units(facts) if u.calls("client::pool::idle::IdleConnections::push")]
 
 
 def _push_sites(facts):
@@ -214,8 +231,8 @@ def P2(ctx, facts, allow_checkout_drop=True, aspects=ALL_P2):
     def chk(aspect, cond, key, ok_text, bad_text, where=None, wit=None):
         if aspect in A:
             ctx.check(cond, key, ok_text, bad_text, where, wit)
-    when_drop = facts.method("client::pool::WhenReady", "Drop", "drop")
-    reg = facts.fn("client::pool::checkout::register_connected")
+    when_drop = facts.unit(facts.method("client::pool::WhenReady", "Drop", "drop"))
+    reg = facts.unit(facts.fn("client::pool::checkout::register_connected"))
     allowed = {when_drop.key: "WhenReady::drop", reg.key: "register_connected"}
     co_drop = None
     for f in facts.fns.values():
@@ -223,17 +240,29 @@ def P2(ctx, facts, allow_checkout_drop=True, aspects=ALL_P2):
             co_drop = f
     if co_drop is not None and allow_checkout_drop:
         allowed[co_drop.key] = "Checkout pinned drop"
-    sites = _push_sites(facts)
+    raw_sites = _push_sites(facts)
+    names = [f.nkey for f in entrance_fns(facts)] or ["client::pool::PoolInner::push"]
+    units = {k: facts.unit(facts.fns[k]) for k in allowed}
+    # who may call: an allowed holder, or a private helper that only the allowed holders' units contain
+    for c in raw_sites:
+        g = c.fn
+        if g.key in allowed:
+            continue
+        homes = [k for k, u in units.items() if g.key in u.inlined]
+        fam = set()
+        for k in homes:
+            fam |= {k} | set(units[k].inlined)
+        outside = [x for x in facts.call_sites_of(g.nkey) if x.fn.key not in fam]
+        if not homes or outside:
+            ctx.bad("caller|%s" % g.nkey, "PoolInner::push called from a function with no provenance obligation", c.where())
+    sites = [c for u in units.values() for c in u.calls(*names)]
     ctx.floor("pool-push-callers", len(sites), 2, "call sites of PoolInner::push")
     for need, nm in ((when_drop, "WhenReady::drop"), (reg, "register_connected")):
         ctx.floor("pool-push-from|%s" % nm, sum(1 for c in sites if c.fn.key == need.key), 1, "PoolInner::push call in %s" % nm)
     for c in sites:
         f = c.fn
-        ctx.touched(f)
+        ctx.touched(f.origin if hasattr(f, "origin") else f)
         ctx.stats["call_sites_examined"] += 1
-        if f.key not in allowed:
-            ctx.bad("caller|%s" % f.nkey, "PoolInner::push called from a function with no provenance obligation", c.where())
-            continue
         conn = c.args[2]
         croots = f.roots(conn)
         if f.key == when_drop.key:
@@ -305,7 +334,7 @@ def P3_route(ctx, facts):
 
 
 def _P3_route(ctx, facts):
-    pd = facts.method("client::pool::Pooled", "Drop", "drop")
+    pd = facts.unit(facts.method("client::pool::Pooled", "Drop", "drop"))
     ctx.touched(pd)
     spawns = pd.calls("tokio::spawn", "tokio::task::spawn")
     ctx.floor("Pooled::drop|spawn", len(spawns), 1, "tokio::spawn in Pooled::drop")
@@ -343,7 +372,7 @@ def _P3_route(ctx, facts):
 
 
 def _P3_ready(ctx, facts):
-    wp = facts.method("client::pool::WhenReady", "Future", "poll")
+    wp = facts.unit(facts.method("client::pool::WhenReady", "Future", "poll"))
     ctx.touched(wp)
     ready_blocks = [b for (b, i, s) in wp.aggregates("core::task::poll::Poll", "Ready")] + \
                    [b for (b, i, s) in wp.aggregates("std::task::Poll", "Ready")]
@@ -387,7 +416,7 @@ def P4(ctx, facts):
     # who calls reuse
     sites = facts.call_sites_of("client::pool::PoolableConnection::reuse")
     allowed = {"client::pool::PoolInner::push", "client::pool::checkout::register_connected"}
-    pr = facts.method("client::pool::Pooled", "PoolableConnection", "reuse")
+    pr = facts.unit(facts.method("client::pool::Pooled", "PoolableConnection", "reuse"))
     ctx.floor("reuse-sites", len(sites), 3, "call sites of PoolableConnection::reuse")
     for c in sites:
         inpr = c.fn.key == pr.key or c.fn.d.get("parent") == pr.key
@@ -395,8 +424,8 @@ def P4(ctx, facts):
         ctx.check(c.fn.nkey in allowed or inpr or in_inner, "reuse-caller|%s" % c.fn.nkey, "reuse() called from a pool-internal site",
                   "reuse() called from unexpected function", c.where())
     # HttpConnection per-variant agreement
-    cs = facts.method("client::conn::connection::HttpConnection", "PoolableConnection", "can_share")
-    ru = facts.method("client::conn::connection::HttpConnection", "PoolableConnection", "reuse")
+    cs = facts.unit(facts.method("client::conn::connection::HttpConnection", "PoolableConnection", "can_share"))
+    ru = facts.unit(facts.method("client::conn::connection::HttpConnection", "PoolableConnection", "reuse"))
     for f in (cs, ru):
         ctx.touched(f)
     _, a_cs = arms(cs, "InnerConnection")
@@ -430,7 +459,7 @@ def P4(ctx, facts):
 
 def C02_1(ctx, facts):
     """HttpConnection::is_open asks the matching hyper sender for readiness in each arm."""
-    f = facts.method("client::conn::connection::HttpConnection", "PoolableConnection", "is_open")
+    f = facts.unit(facts.method("client::conn::connection::HttpConnection", "PoolableConnection", "is_open"))
     ctx.touched(f)
     _, a = arms(f, "InnerConnection")
     if set(a) != {"H1", "H2"}:
@@ -452,7 +481,7 @@ def C02_2(ctx, facts):
         priv = not fld["vis"].startswith("Public")
         ctx.check(priv, "Pooled.%s|private" % fld["name"], "field %s of Pooled is private (%s)" % (fld["name"], fld["vis"]),
                   "field %s of Pooled is public" % fld["name"])
-    take = facts.fn("client::pool::Pooled::take")
+    take = facts.unit(facts.fn("client::pool::Pooled::take"))
     ctx.check(not take.d.get("vis", "").startswith("Public"), "Pooled::take|private", "Pooled::take is private to the pool module (%s)" % take.d.get("vis"),
               "Pooled::take is public")
     callers = facts.call_sites_of("client::pool::Pooled::take")
@@ -525,7 +554,7 @@ def expiry_cond(facts, fn, cond):
 
 def P5(ctx, facts):
     """IdleConnections::pop yields an entry only if it is open and not expired; expiry = at < now - timeout."""
-    pop = facts.fn("client::pool::idle::IdleConnections::pop")
+    pop = facts.unit(facts.fn("client::pool::idle::IdleConnections::pop"))
     ctx.touched(pop)
     vpops = pop.calls("alloc::vec::Vec::pop", "std::vec::Vec::pop")
     if not vpops:
@@ -598,7 +627,7 @@ def P5(ctx, facts):
         ctx.check(filt_ok, "IdleConnections::pop|zero-disables-only", "the timeout filter keeps exactly the non-zero timeouts (`> 0`)",
                   "the timeout filter does not have the shape `timeout > 0`: a non-zero timeout may be ignored")
     # callers / plumbing
-    ppop = facts.fn("client::pool::PoolInner::pop")
+    ppop = facts.unit(facts.fn("client::pool::PoolInner::pop"))
     ctx.touched(ppop)
     sites = facts.call_sites_of("client::pool::idle::IdleConnections::pop")
     ctx.floor("IdleConnections::pop|callers", len(sites), 1, "call sites of IdleConnections::pop")
